@@ -47,21 +47,25 @@ Enc(t, path, dp, dk) ==
              body == Flat([i \in 1..Len(order) |-> ent(order[i])]) IN
          IF d = "indef" THEN <<191>> \o body \o <<255>> ELSE HeadDev(5, FromSmall(Len(order)), d) \o body
     [] t.k = "tag" -> IF d = "drop" THEN kid(t.x, 1) ELSE HeadDev(6, FromSmall(t.t), d) \o kid(t.x, 1)
+    [] t.k = "iarr" -> <<159>> \o Flat([i \in 1..Len(t.xs) |-> kid(t.xs[i], i)]) \o <<255>>
+    [] t.k = "cbytes" -> LET n == Len(t.s) nch == (n + 63) \div 64 IN
+                         <<95>> \o Flat([c \in 1..nch |-> LET lo == 64 * (c - 1) + 1 hi == IF 64 * c < n THEN 64 * c ELSE n IN CHead(2, FromSmall(hi - lo + 1)) \o SubSeq(t.s, lo, hi)]) \o <<255>>
     [] t.k = "simple" -> <<t.b>>
     [] t.k = "raw" -> t.b
 \* all node paths of a tree
 RECURSIVE Paths(_,_)
 Paths(t, path) == {path} \cup
-  (CASE t.k = "arr" -> UNION {Paths(t.xs[i], Append(path, i)) : i \in 1..Len(t.xs)}
+  (CASE t.k \in {"arr", "iarr"} -> UNION {Paths(t.xs[i], Append(path, i)) : i \in 1..Len(t.xs)}
      [] t.k = "map" -> UNION {Paths(t.kvs[i][1], Append(path, 2 * i - 1)) \cup Paths(t.kvs[i][2], Append(path, 2 * i)) : i \in 1..Len(t.kvs)}
      [] t.k = "tag" -> Paths(t.x, Append(path, 1))
      [] OTHER -> {})
 RECURSIVE NodeAt(_,_,_)
 NodeAt(t, path, i) == IF i > Len(path) THEN t
-   ELSE CASE t.k = "arr" -> NodeAt(t.xs[path[i]], path, i + 1)
+   ELSE CASE t.k \in {"arr", "iarr"} -> NodeAt(t.xs[path[i]], path, i + 1)
           [] t.k = "map" -> NodeAt(t.kvs[(path[i] + 1) \div 2][IF path[i] % 2 = 1 THEN 1 ELSE 2], path, i + 1)
           [] t.k = "tag" -> NodeAt(t.x, path, i + 1)
 \* every single deviation of a tree: set of <<path, kind>>
 Deviations(t) == UNION {{<<p, dk>> : dk \in DevKinds(NodeAt(t, p, 1))} : p \in Paths(t, <<>>)}
 Canon(t) == Enc(t, <<>>, <<-1>>, "none")
+CanonX(t) == Canon(t)
 ====
